@@ -87,7 +87,8 @@ def gen_call(rng):
     module = "tools" if rng.random() < 0.5 else "laue"
     valid = bool(rng.random() < 0.5)
     U, _, _ = gen.rotation(rng, ["uniform", "axis_aligned", "tiny_angle", "product", "near_180"][int(rng.integers(5))])
-    if api in ("u_to_rod",) and oracle.rotation_angle_deg(U) > 179.0:
+    while api in ("u_to_rod",) and oracle.rotation_angle_deg(U) > 179.0:
+        # u_to_rod has no finite answer at 180 deg (C03 owns that neighbourhood); its 'Wrong trace of U' error is not an input check
         U = oracle.quat_to_mat(rng.normal(size=4))
     cell, _ = gen.cell(rng, "generic")
     step = {"api": api, "module": module, "valid": valid}
